@@ -373,6 +373,43 @@ extern "C" void h_pfc_c07hist() {
   verif_witness();
 }
 
+// ---- C06/C15/C08: header fields travel at their full width.  The image is written by hand with ARBITRARY
+// header values (elements: all 2^64, maxlength / buckets / bucketsize: all 2^32), a fixed 2-byte text and a real
+// LogSequence image; the loader must report exactly these values, consume exactly the image, and save must
+// reproduce it byte for byte.  No query is issued (the header need not describe the 2-byte text): this decides
+// only the field-by-field mirror of save and load, for values no whole-kind obligation can reach (>= 2^16 ...).
+extern "C" void h_pfc_header() {
+  uint64_t elements = nondet_ulong();
+  uint32_t maxlength = nondet_uint(), buckets = nondet_uint(), bucketsize = nondet_uint();
+  verif_stream_put_u32(0, PFC);
+  verif_stream_put_u64(0, elements);
+  verif_stream_put_u32(0, maxlength);
+  verif_stream_put_u32(0, buckets);
+  verif_stream_put_u32(0, bucketsize);
+  verif_stream_put_u64(0, 2);
+  verif_stream_put(0, 'a'); verif_stream_put(0, 0);
+  std::vector<size_t> v; v.push_back(0); v.push_back(2);
+  LogSequence *ls = new LogSequence(&v, 2);
+  ls->save(*verif_ostream(0));
+  delete ls;
+  unsigned long w = verif_stream_written(0);
+#ifdef GENERIC_LOADER
+  StringDictionary *r = StringDictionary::load(*verif_istream(0), 0);
+#else
+  StringDictionary *r = StringDictionaryPFC::load(*verif_istream(0));
+#endif
+  verif_assert(r != 0, 1);
+  if (r) {
+    verif_assert(verif_stream_consumed(0) == w && !verif_stream_failed(0), 2);
+    verif_assert(r->numElements() == elements, 3);
+    verif_assert(r->maxLength() == maxlength, 4);
+    r->save(*verif_ostream(1));
+    verif_assert(verif_stream_equal(0, 1, VS_BOUND), 5);
+    delete r;
+  }
+  verif_witness();
+}
+
 // ---- C06: images are self-delimiting - two images back to back in ONE stream load to two equivalent dictionaries
 extern "C" void h_pfc_two_images() {
   Built b;
